@@ -397,6 +397,14 @@ def rewindRequests (sh : List (String × SharedGroup)) (retx : List (Nat × Curs
         | none => rewindRequests sh retx rest (acc ++ [r'])   -- group already gone (last member)
         | some grp => rewindRequests (ainsert g { grp with cursor := c } sh) retx rest (acc ++ [r'])
 
+/-- the logs of the groups whose cursor `rewindRequests` sets back (`rewound` in
+    `handle_disconnection`): the members that remain may all be parked behind those entries -/
+def rewoundLogs (sh : List (String × SharedGroup)) (retx : List (Nat × Cursor)) (reqs : List DataRequest) : List Nat :=
+  reqs.filterMap (fun r =>
+    match nlookup r.filterIdx retx, r.group.bind (fun g => alookup g sh) with
+    | some _, some _ => some r.filterIdx
+    | _, _ => none)
+
 /-- the logs of the groups that stay when `client` leaves all groups and whose turn passes to
     another member by that (`handle_disconnection`; group key `<share>/<path>`) -/
 def turnMovedLogs (d : DataLog) (sh : List (String × SharedGroup)) (client : String) : List Nat :=
@@ -458,12 +466,15 @@ def handleDisconnection (s : RState) (id : Nat) (reason : Option String) : M RSt
       if c.subscriptions.contains p.1 then (p.1, p.2.filter (· ≠ id)) else p)
     let s := { s with subscriptionMap := smap }
     if !c.clean then
-      let (sh, reqs) := rewindRequests s.shared retx ((c.tracker.requests ++ inflightReqs).map (atGroupCursor groupsBefore)) []
+      let saved0 := (c.tracker.requests ++ inflightReqs).map (atGroupCursor groupsBefore)
+      let rewound := rewoundLogs s.shared retx saved0
+      let (sh, reqs) := rewindRequests s.shared retx saved0 []
       let t : Tracker := { c.tracker with requests := reqs, status := .paused .busy }
       let saved : SessionState := { tracker := t, subscriptions := c.subscriptions, unackedPubrels := c.out.unackedPubrels }
       let s : RState := { s with shared := sh, graveyard := ainsert c.clientId (some saved) s.graveyard }
-      -- the turn of some groups passed to another member, which may be parked
-      wakeParked s movedLogs
+      -- the turn of some groups passed to another member, which may be parked; groups set
+      -- back have entries to hand out again
+      wakeParked s (movedLogs ++ rewound)
     else
       let s : RState := { s with graveyard := ainsert c.clientId none s.graveyard }
       wakeParked s movedLogs
